@@ -1,13 +1,20 @@
 package zzsymxrt
 
 import (
+	"os"
 	"runtime"
 	"time"
 )
 
+// nativeQuiesce approximates "every other goroutine has run until it blocked" by yielding and
+// sleeping; SYMX_SLOW=1 (used when a first replay disagreed with the engine) waits ten times longer.
 func nativeQuiesce() {
-	for k := 0; k < 20; k++ {
+	rounds := 25
+	if os.Getenv("SYMX_SLOW") != "" {
+		rounds = 250
+	}
+	for k := 0; k < rounds; k++ {
 		runtime.Gosched()
-		time.Sleep(2 * time.Millisecond)
+		time.Sleep(3 * time.Millisecond)
 	}
 }
